@@ -562,7 +562,9 @@ class Gen(object):
         if kind == 'setvalue':
             if d == 0:
                 return ['toer7', x]
-            ref = getattr(X, 'reference', None)
+            ref = X.__dict__.get('reference')
+            if ref is None and d < 3:
+                ref = ('leaf', None, X.datatype or 'ST', None, None, -1)
             if d == 3:
                 return ['setvalue', x, rng.choice(['u', 'w', '', 'X' * 210] if X.datatype in TEXTUAL else ['1', '12', ''])]
             return ['setvalue', x, self.text_for((X.name, ref, None), d - 1, X.validation_level)]
